@@ -1,0 +1,82 @@
+//go:build verif
+
+package result
+
+import (
+	"github.com/ipfs/go-log/v2"
+
+	beaconchain "github.com/keep-network/keep-core/pkg/beacon/chain"
+	"github.com/keep-network/keep-core/pkg/chain"
+	"github.com/keep-network/keep-core/pkg/protocol/group"
+	"github.com/keep-network/keep-core/pkg/protocol/state"
+)
+
+// Verification hooks for properties C12 and C13 (thin wrappers, no behaviour
+// of their own): build the result signing state around a member created with
+// NewSigningMember, build a signature message, read what the states hold.
+
+// VerifC12NewSigningState builds the resultSigningState.
+func VerifC12NewSigningState(
+	logger log.StandardLogger,
+	memberIndex group.MemberIndex,
+	dkgGroup *group.Group,
+	membershipValidator *group.MembershipValidator,
+	sessionID string,
+	beaconChain beaconchain.Interface,
+	blockCounter chain.BlockCounter,
+	result *beaconchain.DKGResult,
+	signingStartBlockHeight uint64,
+) state.SyncState {
+	return &resultSigningState{
+		beaconChain:  beaconChain,
+		blockCounter: blockCounter,
+		member: NewSigningMember(
+			logger,
+			memberIndex,
+			dkgGroup,
+			membershipValidator,
+			sessionID,
+		),
+		result:                  result,
+		signatureMessages:       make([]*DKGResultHashSignatureMessage, 0),
+		signingStartBlockHeight: signingStartBlockHeight,
+	}
+}
+
+// VerifC12NewSignatureMessage builds a DKGResultHashSignatureMessage.
+func VerifC12NewSignatureMessage(
+	senderIndex group.MemberIndex,
+	resultHash beaconchain.DKGResultHash,
+	signature []byte,
+	publicKey []byte,
+	sessionID string,
+) *DKGResultHashSignatureMessage {
+	return &DKGResultHashSignatureMessage{
+		senderIndex: senderIndex,
+		resultHash:  resultHash,
+		signature:   signature,
+		publicKey:   publicKey,
+		sessionID:   sessionID,
+	}
+}
+
+// VerifC12Stored returns the number of signature messages stored by the
+// result signing state, -1 for any other state.
+func VerifC12Stored(st state.SyncState) int {
+	if rss, ok := st.(*resultSigningState); ok {
+		return len(rss.signatureMessages)
+	}
+	return -1
+}
+
+// VerifC13Signatures returns the valid signatures held by the signatures
+// verification state or the result submission state, nil for any other state.
+func VerifC13Signatures(st state.SyncState) map[group.MemberIndex][]byte {
+	switch s := st.(type) {
+	case *signaturesVerificationState:
+		return s.validSignatures
+	case *resultSubmissionState:
+		return s.signatures
+	}
+	return nil
+}
